@@ -76,6 +76,11 @@ def repr_string(string: str, indent: int = 0, prefer_single_qoute: bool = False)
         if not single_line_is_safe and multiline_is_safe:
             assert multiline is not None
             return multiline
+        if not single_line_is_safe and "\r" not in string:
+            # A literal in triple quotes that does not span lines is read as it stands (nothing is dedented).
+            for delimiter in (preferred_multiline_quote, secondary_multiline_quote):
+                if delimiter not in string and not string.endswith(delimiter[0]):
+                    return f"{delimiter}{string}{delimiter}"
         return single_line
     if multiline_is_safe or (multiline is not None and not single_line_is_safe):
         assert multiline is not None
